@@ -489,4 +489,155 @@ theorem applySeq_eq_sim (r0 : Row) : ∀ (sets : List (Nat × IExp)) (r : Row) (
 theorem applySim_eq_foldl (sets : List (Nat × IExp)) (r : Row) :
     applySim sets r = { r with ints := sets.foldl (fun acc p => setAt acc p.1 (evalSqlI r p.2)) r.ints } := rfl
 
+
+/-! ## expired attributes: a definite answer never depended on them -/
+
+theorem straight_sound {α β γ : Type} (op : α → β → Py γ) (a a' : Py α) (b b' : Py β)
+    (ha : a ≠ .expired → a' = a) (hb : b ≠ .expired → b' = b)
+    (h : straight op a b ≠ .expired) : straight op a' b' = straight op a b := by
+  cases a with
+  | zerodiv =>
+    rw [ha (by simp)]
+    cases b' <;> rfl
+  | expired =>
+    cases b with
+    | zerodiv =>
+      rw [hb (by simp)]
+      cases a' with
+      | val x => cases x <;> rfl
+      | expired => rfl
+      | zerodiv => rfl
+    | expired => exact absurd rfl h
+    | val y => cases y <;> exact absurd rfl h
+  | val x =>
+    rw [ha (by simp)]
+    cases b with
+    | zerodiv => rw [hb (by simp)]
+    | expired => cases x <;> exact absurd rfl h
+    | val y => rw [hb (by simp)]
+
+section expired
+variable (o : Obj) (r' : Row)
+  (hi : ∀ i, o.xi.contains i = false → r'.ints.getD i none = o.row.ints.getD i none)
+  (hs : ∀ i, o.xs.contains i = false → r'.strs.getD i none = o.row.strs.getD i none)
+include hi hs
+
+theorem expired_sound_I : ∀ e : IExp, evalPyI o e ≠ .expired → evalPyI ⟨r', [], []⟩ e = evalPyI o e := by
+  intro e
+  induction e with
+  | col i =>
+    intro h
+    simp only [evalPyI, getI] at h ⊢
+    cases hc : o.xi.contains i
+    · have := hi i hc
+      simp only [List.contains_nil, Bool.false_eq_true, if_false, this]
+    · rw [hc] at h; simp at h
+  | lit v => intro _; rfl
+  | add a b iha ihb => intro h; simp only [evalPyI] at h ⊢; exact straight_sound _ _ _ _ _ iha ihb h
+  | sub a b iha ihb => intro h; simp only [evalPyI] at h ⊢; exact straight_sound _ _ _ _ _ iha ihb h
+  | mul a b iha ihb => intro h; simp only [evalPyI] at h ⊢; exact straight_sound _ _ _ _ _ iha ihb h
+  | mod a b iha ihb => intro h; simp only [evalPyI] at h ⊢; exact straight_sound _ _ _ _ _ iha ihb h
+  | floordiv a b _ _ => intro _; rfl
+  | neg a _ => intro _; rfl
+
+theorem expired_sound_S : ∀ e : SExp, evalPyS o e ≠ .expired → evalPyS ⟨r', [], []⟩ e = evalPyS o e := by
+  intro e
+  induction e with
+  | col i =>
+    intro h
+    simp only [evalPyS, getS] at h ⊢
+    cases hc : o.xs.contains i
+    · have := hs i hc
+      simp only [List.contains_nil, Bool.false_eq_true, if_false, this]
+    · rw [hc] at h; simp at h
+  | lit v => intro _; rfl
+  | concat a b iha ihb => intro h; simp only [evalPyS] at h ⊢; exact straight_sound _ _ _ _ _ iha ihb h
+
+mutual
+theorem expired_sound_B : ∀ e : BExp, evalPyB o e ≠ .expired → evalPyB ⟨r', [], []⟩ e = evalPyB o e
+  | .icmp op a b, h => by
+    simp only [evalPyB] at h ⊢
+    exact straight_sound _ _ _ _ _ (expired_sound_I o r' hi hs a) (expired_sound_I o r' hi hs b) h
+  | .scmp op a b, h => by
+    simp only [evalPyB] at h ⊢
+    exact straight_sound _ _ _ _ _ (expired_sound_S o r' hi hs a) (expired_sound_S o r' hi hs b) h
+  | .qcmp op a b c, h => by
+    simp only [evalPyB] at h ⊢
+    refine straight_sound _ _ _ _ _ ?_ (expired_sound_I o r' hi hs c) h
+    intro h2
+    exact straight_sound _ _ _ _ _ (expired_sound_I o r' hi hs a) (expired_sound_I o r' hi hs b) h2
+  | .inull neg a, h => by
+    simp only [evalPyB] at h ⊢
+    have := expired_sound_I o r' hi hs a
+    cases hv : evalPyI o a with
+    | expired => simp [hv] at h
+    | zerodiv => rw [this (by simp [hv]), hv]
+    | val v => rw [this (by simp [hv]), hv]
+  | .snull neg a, h => by
+    simp only [evalPyB] at h ⊢
+    have := expired_sound_S o r' hi hs a
+    cases hv : evalPyS o a with
+    | expired => simp [hv] at h
+    | zerodiv => rw [this (by simp [hv]), hv]
+    | val v => rw [this (by simp [hv]), hv]
+  | .iin neg a l, h => by
+    simp only [evalPyB] at h ⊢
+    exact straight_sound _ _ _ _ _ (expired_sound_I o r' hi hs a) (fun _ => rfl) h
+  | .like k ic ng a ot es au, h => by
+    simp only [evalPyB] at h ⊢
+    exact straight_sound _ _ _ _ _ (expired_sound_S o r' hi hs a) (fun _ => rfl) h
+  | .between _ _ _, _ => by simp [evalPyB]
+  | .and l, h => by
+    simp only [evalPyB] at h ⊢
+    exact expired_sound_and l h
+  | .or l, h => by
+    simp only [evalPyB] at h ⊢
+    exact expired_sound_or l false h
+  | .not a, h => by
+    simp only [evalPyB] at h ⊢
+    have := expired_sound_B a
+    cases hv : evalPyB o a with
+    | expired => simp [hv] at h
+    | zerodiv => rw [this (by simp [hv]), hv]
+    | val v => rw [this (by simp [hv]), hv]
+  | .const v, _ => by simp [evalPyB]
+theorem expired_sound_and : ∀ l : List BExp, andLoop o l ≠ .expired → andLoop ⟨r', [], []⟩ l = andLoop o l
+  | [], _ => by simp [andLoop]
+  | e :: es, h => by
+    simp only [andLoop] at h ⊢
+    have ih := expired_sound_B e
+    cases hv : evalPyB o e with
+    | expired => simp [hv] at h
+    | zerodiv => rw [ih (by simp [hv]), hv]
+    | val v =>
+      rw [ih (by simp [hv]), hv]
+      rw [hv] at h
+      cases v with
+      | none => rfl
+      | some b =>
+        cases b
+        · rfl
+        · exact expired_sound_and es h
+theorem expired_sound_or : ∀ (l : List BExp) (hn : Bool), orLoop o l hn ≠ .expired →
+    orLoop ⟨r', [], []⟩ l hn = orLoop o l hn
+  | [], hn, _ => by simp [orLoop]
+  | e :: es, hn, h => by
+    simp only [orLoop] at h ⊢
+    have ih := expired_sound_B e
+    cases hv : evalPyB o e with
+    | expired => simp [hv] at h
+    | zerodiv => rw [ih (by simp [hv]), hv]
+    | val v =>
+      rw [ih (by simp [hv]), hv]
+      rw [hv] at h
+      cases v with
+      | none => exact expired_sound_or es true h
+      | some b =>
+        cases b
+        · exact expired_sound_or es hn h
+        · rfl
+end
+
+end expired
+
 end SaVerif.Eval
